@@ -346,6 +346,8 @@ func (s *Sorts) prelude() string {
 		b.WriteString("(assert (forall ((s!a Str)) (! (and (bvsle #x0000000000000000 (str_len s!a)) (bvsle (str_len s!a) #x00007fffffffffff)) :pattern ((str_len s!a)))))\n")
 	} else {
 		b.WriteString("(assert (forall ((s!a Str)) (! (and (<= 0 (str_len s!a)) (<= (str_len s!a) 140737488355327)) :pattern ((str_len s!a)))))\n")
+		// the elements of a string are bytes
+		b.WriteString("(assert (forall ((s!b Str) (i!b Int)) (! (and (<= 0 (str_at s!b i!b)) (<= (str_at s!b i!b) 255)) :pattern ((str_at s!b i!b)))))\n")
 	}
 	fmt.Fprintf(&b, "(declare-datatype Slice ((mk_Slice (s_arr Int) (s_off %s) (s_len %s) (s_cap %s))))\n", idx, idx, idx)
 	// Iface depends only on scalar sorts, Str, Slice and iface-free structs.
